@@ -265,6 +265,7 @@ class ClusterView:
             # generation they belong to, an "epoch" marker of the executor starts a new one)
             for th in cur.values():
                 th["_state"], th["_pend"] = None, []
+                th.setdefault("_partial", False)      # the last response was a partial catch-up batch (header ahead)
             late = {}            # (tag, generation) -> thread that ended in this step (regen)
             tagw = dict((cl_tag(*W[w]), w) for w in cur)
             for en in st["log"]:
@@ -276,11 +277,17 @@ class ClusterView:
                 inr = lambda k: cl_in_range(k, *W[w])
                 posle = lambda R: sum(1 for m in muts if m[0] <= R and inr(m[2]))
                 t = en["t"]
+                if th.get("_partial") and t in ("watch", "get", "compacted", "closed", "canceled"):
+                    # the stream broke / was replaced right after a partial catch-up batch: events with revisions
+                    # <= the header revision of that batch had not been delivered yet (class of seed C13-9)
+                    self.feats.add("stream_replaced_after_partial_batch" if t in ("watch", "get") else "fault_after_partial_batch")
+                    if t in ("watch", "get"):
+                        th["_partial"] = False
                 if t == "epoch":
                     if th.get("ep") is not None and th["ep"] != en["ep"]:
                         # the key is monitored again: the previous generation's watcher is gone
                         late[(tag, th["ep"])] = th
-                        th = cur[w] = {"w": w, "ops": [], "_state": None, "_pend": []}
+                        th = cur[w] = {"w": w, "ops": [], "_state": None, "_pend": [], "_partial": False}
                         members[w] = []
                         self.feats.add("regeneration")
                     th["ep"] = en["ep"]
@@ -304,6 +311,9 @@ class ClusterView:
                     th["_pend"].append(d)
                     if len(evs) > 1:
                         self.feats.add("replay_or_backlog_batch")
+                    th["_partial"] = bool(en.get("more"))
+                    if en.get("more"):
+                        self.feats.add("partial_batch_header_ahead")
                 elif t in ("add", "del"):
                     call = ("add", self.kid(en["k"]), num(en.get("v", ""))) if t == "add" else ("del", self.kid(en["k"]))
                     ep = en.get("ep")
@@ -706,6 +716,33 @@ class C13(Property):
                      ["regen", 0, 0, [["del", "svc/k1"], ["put", "svc/k4", "v4"], ["put", "svc/k3", "v5"]],
                       [["put", "svc/k1", "v6"], ["del", "svc/k4"]], 2, "rec", False, "in"],
                      ["put", "svc/k0", "v0"]]},
+            # etcd catches a watcher that is behind up in BATCHES stamped with the current store revision (the header
+            # revision of a partial batch is ahead of the events delivered so far); the stream breaks (closed channel,
+            # Canceled response, compaction, reconnect) after a partial batch: nothing between the last delivered event
+            # and that header revision may be skipped.  Two watched ranges, recorded / API / exclusive subscribers.
+            {"kind": "cluster", "base": 1, "eps": 1, "watchers": [{"key": "svc", "exact": False}, {"key": "svc/a", "exact": False}],
+             "ops": [["spy", 0], ["sub", 0, 0, "rec", False], ["sub", 1, 0, "api", False], ["sub", 2, 0, "rec", True],
+                     ["spy", 1], ["sub", 3, 1, "rec", False], ["put", "svc/k0", "v0"], ["put", "svc/a/k0", "v1"],
+                     ["batchsize", 2],
+                     ["pause"], ["put", "svc/k1", "v1"], ["put", "svc/k2", "v2"], ["del", "svc/k0"], ["put", "svc/k3", "v3"],
+                     ["put", "svc/a/k1", "v4"], ["put", "svcx/k0", "v9"], ["trickle", 1], ["closewatch"], ["resume"],
+                     ["put", "svc/k1", "v5"],
+                     ["pause"], ["del", "svc/k2"], ["put", "svc/k0", "v6"], ["put", "svc/k2", "v7"], ["del", "svc/a/k0"],
+                     ["trickle", 1], ["cancelwatch"], ["resume"],
+                     ["pause"], ["put", "svc/k3", "v8"], ["del", "svc/k1"], ["put", "svc/a/k0", "v10"], ["trickle", 1],
+                     ["compact"], ["resume"],
+                     ["pause"], ["put", "svc/k1", "v11"], ["del", "svc/k3"], ["put", "svc/k3", "v12"], ["del", "svc/k0"],
+                     ["trickle", 1], ["reconnect"], ["put", "svc/k0", "v13"], ["del", "svc/k2"], ["put", "svc/a/k2", "v14"],
+                     ["trickle", 1], ["closewatch"], ["trickle", 1], ["resume"],
+                     ["batchsize", 1], ["pause"], ["put", "svc/k2", "v15"], ["del", "svc/k1"], ["put", "svc/k1", "v16"],
+                     ["trickle", 2], ["cancelwatch"], ["trickle", 1], ["closewatch"], ["resume"], ["put", "svc/k0", "v17"]]},
+            # the same through the gRPC resolver (discovBuilder on the real cluster): the published addresses
+            {"kind": "cluster", "base": 2, "eps": 1, "watchers": [{"key": "svc", "exact": False}],
+             "ops": [["spy", 0], ["sub", 0, 0, "res", False], ["put", "svc/k0", "v0"], ["batchsize", 1],
+                     ["pause"], ["put", "svc/k1", "v1"], ["del", "svc/k0"], ["put", "svc/k2", "v2"], ["trickle", 1],
+                     ["closewatch"], ["resume"], ["put", "svc/k3", "v3"],
+                     ["pause"], ["del", "svc/k1"], ["put", "svc/k0", "v4"], ["del", "svc/k3"], ["trickle", 2],
+                     ["cancelwatch"], ["resume"]]},
         ] + ([
             # a subscriber created from inside a callback during a TWO-event watch response must get the second event
             # (on a tree whose Monitor replays outside the lock: an instance of the KNOWN finding)
@@ -837,11 +874,14 @@ class C13(Property):
         use_hooks = rng.random() < 0.5
         use_joins = rng.random() < 0.5
         use_regen = rng.random() < 0.5
+        # etcd catches watchers that are behind up in batches stamped with the CURRENT revision (header ahead of the
+        # events delivered so far); stream errors after any batch
+        use_batch = rng.random() < 0.4
         nv = rng.randint(1, 4)
         keys = CL_KEYS if rng.random() < 0.6 else CL_KEYS[:4]
         neps = 2 if rng.random() < 0.3 else 1          # endpoints of the etcd cluster; subscribers may list them in either order
         base = rng.choice([1, 1, 1, 2, 1 << 31, (1 << 40) + 7])   # revision of the empty store
-        ops = []
+        ops = [["batchsize", rng.choice([1, 1, 2, 2, 3])]] if use_batch else []
         spied, members, store, pubs, modes = set(), {}, {}, set(), {}
         st = {"sid": 0, "rev": base, "geterr": 1 if rng.random() < 0.15 else 0}
 
@@ -901,9 +941,25 @@ class C13(Property):
         def lag_block():
             ops.append(["pause"])
             st["paused"] = True
-            for _ in range(rng.randint(1, 4)):
+            for _ in range(rng.randint(1, 4) + (rng.randint(1, 3) if use_batch else 0)):
                 mut()
-            if rng.random() < 0.65:
+            if use_batch and spied and rng.random() < 0.8:
+                # part of the backlog arrives (partial catch-up batches, header revision = the current one), then the
+                # stream breaks / is compacted away / the connection is re-established / nothing happens, and again
+                for _ in range(rng.choice([1, 1, 2])):
+                    ops.append(["trickle", rng.choice([1, 1, 2])])
+                    r = rng.random()
+                    if r < 0.35:
+                        ops.append(["closewatch"])
+                    elif r < 0.6:
+                        ops.append(["cancelwatch"])
+                    elif r < 0.7:
+                        ops.append(["reconnect"])
+                    elif r < 0.8:
+                        mut()
+                if rng.random() < 0.25:
+                    ops.append(["compact"])
+            elif rng.random() < 0.65:
                 ops.append(["compact"])
             if spied and rng.random() < 0.2:
                 ops.append([rng.choice(["closewatch", "cancelwatch"])])
@@ -1284,6 +1340,12 @@ class C13(Property):
             elif n == "stale":
                 if paused or o[1] > rev - base:
                     return False
+            elif n == "batchsize":
+                if not 0 <= o[1] <= 64:
+                    return False
+            elif n == "trickle":
+                if not paused or not 1 <= o[1] <= 64:
+                    return False
             elif n in ("reconnect", "closewatch", "cancelwatch", "geterr"):
                 if not spied:
                     return False
@@ -1482,7 +1544,7 @@ class C13(Property):
         if k == "cluster":
             names = set(o[0] for o in case["ops"])
             return (self._value_change(case["ops"]) and bool(names & {"sub", "subj", "regen"}) and
-                    bool(names & {"closewatch", "cancelwatch", "compact", "reconnect", "geterr", "hook", "subj", "spyj", "regen"}))
+                    bool(names & {"closewatch", "cancelwatch", "compact", "reconnect", "geterr", "hook", "subj", "spyj", "regen", "trickle"}))
         if k in ("discov", "resolver"):
             ops = (case.get("pre") or []) + case["ops"]
             return self._value_change(ops) and any(o[0] == "reload" for o in ops)
